@@ -710,3 +710,26 @@ _amend("C20", "One evaluation = one (text, cursor) pair",
        "Part 4: a quarter of the constructed texts are typed character by character into one highlighter value (cursor at and just before the end), after which the cursor walks back over the finished line. One evaluation = one (text, cursor) pair")
 _amend("C04", "per composition 3 (quick) / 6 (thorough) programs", "per composition 3 (quick) / 4 (thorough) programs")
 _amend("C04", "(eval-containing programs: 2*10^4 in quick)", "(eval-containing programs: 2*10^4; programs whose recursive step is (call/cc f), which keeps a chain of n continuations live: 10^4)")
+
+# ---- round 5 (DESIGN.md section 11) ----
+_amend("C01", "one session in seven carries one injected failure",
+       "one delay/force expression in three is a promise that forces itself re-entrantly under a mutable stop condition (R7RS 4.2.5: the first "
+       "value delivered stays); one session in seven carries one injected failure")
+_amend("C05", "re-entry 0-3 times inside one form;",
+       "re-entry 0-3 times inside one form; a quarter of the sessions run their second fresh-VM copy over live ballast that holds the heap just "
+       "under the collector's 75 % threshold, so that the collections the production code itself asks for really mark and sweep (counted in the evidence);")
+_amend("C06", "(5) 22 circular-structure programs (list?, length, equal?, display, write, as the value of an evaluation)",
+       "(5) 27 circular-structure programs (list?, length, equal?, display, write, as the value of an evaluation; cdr-cycles through the first "
+       "pair and 'lasso' cycles that enter at a later pair, with length, list?, list-tail, list-ref, memq)")
+_amend("C12", "code and lambdas compiled by eval (also with a fresh parameter name per iteration),",
+       "code and lambdas compiled by eval (also with a fresh parameter name per iteration), bulk-allocating primitives (vector->list, string->list, "
+       "list->vector, append / list-copy of 24-64 elements: more than one cell per executed instruction),")
+_amend("C14", "list length append reverse list-tail",
+       "list length append reverse (two times in three the result is kept and the argument or the result is mutated at once, so a result that "
+       "aliases its argument shows in the pool) list-tail")
+_amend("C15", "string=? <? >? <=? >=? (2-4 arguments) string-ci*",
+       "string=? <? >? <=? >=? (2-4 arguments) string-ci* (against marwood's own string-foldcase, and against a literal case variant of the operand "
+       "whose characters are replaced by other members of their fold class, including ones of another UTF-8 width: KELVIN SIGN, ANGSTROM SIGN, U+023A / U+2C65)")
+_amend("C18", "or a plain character written as an escape)",
+       "or a plain character written as an escape; one second name in five is the stored (escaped) spelling of the first name taken as a name, "
+       "which must be a different symbol)")
